@@ -203,6 +203,7 @@ func (g *lockGate) LstatIfPossible(name string) (os.FileInfo, bool, error) {
 }
 
 type lockWorld struct {
+	forceKey string // a scenario in which two holders cannot be explained by a recorded window names its own key
 	sh      *lockShared
 	inner   afero.Fs
 	dir     string
@@ -245,6 +246,9 @@ func (w *lockWorld) eventsLine() string {
 
 // classify a run in which two holders were seen
 func classifyOverlap(w *lockWorld, override bool) string {
+	if w.forceKey != "" {
+		return w.forceKey
+	}
 	w.sh.mu.Lock()
 	defer w.sh.mu.Unlock()
 	for _, n := range w.sh.notes {
@@ -438,6 +442,9 @@ func lockMutexMain(args []string) {
 		func() {
 			w := newLockWorld(backend, []int{9, 1, 2}, true)
 			defer w.cleanup()
+			// the overtaken contender looks at the lock again before it removes anything (ReleaseIfStale): two holders here are
+			// not the recorded window of two contenders releasing the same stale lock
+			w.forceKey = "two-holders:contender-overtaken-after-judging-stale-removes-the-new-holders-lock"
 			if w.locks[9].TryLock(ctx) != nil {
 				return
 			}
